@@ -16,7 +16,8 @@ ID = "C08"
 LEVEL = "proof"
 RULE = ("kinds: sweep (2-4 samples, 2-5 treatments, D in 1..3, <= 12 observed rows: combinations, single-agent rows in "
         "either column, control-control rows, treatments seen only first / only second / both / never, samples without "
-        "data, optionally no data at all; 1-3 sampler steps through SparseDrugCombo.add_observations/step with "
+        "data, optionally no data at all; 1-3 sampler steps through SparseDrugCombo.add_observations/step (one case in ten with a "
+        "reset_model() between two sweeps, as every chain of batchie.sampling.sample starts) with "
         "np.random.normal / np.random.gamma / sample_mvn_from_precision replaced by recording stubs that return prescribed "
         "values, a few MVN draws raising); selfcombo (same, plus a row with the same treatment in both columns); "
         "mvn (sample_mvn_from_precision with a stubbed generator against Model/Mvn.v).  Per step function the extracted model is "
@@ -146,6 +147,12 @@ def gen(rng, tier):
         yield dict(kind="sweep", D=D, n_s=n_s, n_t=n_t, rows=_gen_rows(rng, n_s, n_t, nrows, False) if nrows else [],
                    steps=rng.choice([1, 2, 2, 3]), dseed=rng.randrange(1 << 30), fail=rng.random() < 0.25,
                    wide=rng.random() < 0.3)
+    for i in range(n_sweep // 9):
+        # a second chain on the same model object: sweep(s), reset_model(), sweep(s)
+        n_s, n_t, D = rng.randint(2, 4), rng.randint(2, 5), rng.choice([1, 2, 2, 3])
+        steps = rng.choice([2, 2, 3])
+        yield dict(kind="sweep", D=D, n_s=n_s, n_t=n_t, rows=_gen_rows(rng, n_s, n_t, rng.randint(1, 10), False),
+                   steps=steps, reset_at=[rng.randint(1, steps - 1)], dseed=rng.randrange(1 << 30), fail=False, wide=rng.random() < 0.3)
     for i in range(n_self):
         n_s, n_t, D = rng.randint(2, 3), rng.randint(2, 4), rng.choice([1, 2])
         yield dict(kind="selfcombo", D=D, n_s=n_s, n_t=n_t, rows=_gen_rows(rng, n_s, n_t, rng.randint(2, 8), True),
@@ -160,7 +167,9 @@ def gen(rng, tier):
 def shrink(desc):
     if desc["kind"] in ("sweep", "selfcombo"):
         rows = desc["rows"]
-        if desc["steps"] > 1:
+        if desc["steps"] > 1 and not desc.get("reset_at"):
+            yield dict(desc, steps=desc["steps"] - 1)
+        if desc.get("reset_at") and desc["steps"] - 1 > max(desc["reset_at"]):
             yield dict(desc, steps=desc["steps"] - 1)
         for i in range(len(rows)):
             if len(rows) > 1:
@@ -308,7 +317,11 @@ def run_sampler(desc, mutate=None):
         with mock.patch("numpy.random.normal", st.normal), mock.patch("numpy.random.gamma", st.gamma), \
                 mock.patch.object(sparse_combo, "sample_mvn_from_precision", st.mvn), \
                 mock.patch("numpy.random.standard_normal", lambda *a, **k: st.problems.append("standard_normal called") or 0.0):
-            for _ in range(desc["steps"]):
+            for si in range(desc["steps"]):
+                if si in desc.get("reset_at", ()):
+                    # batchie.sampling.sample starts every chain with reset_model(): parameters back to their initial
+                    # values, data kept - the next sweep must again be a sweep of full conditionals
+                    model.reset_model()
                 cur_calls = []
                 before = snap(w)
                 model.step()
@@ -762,7 +775,7 @@ def run_sweep(desc, mutate=None):
         return None
 
     d1, d2 = dat[2], dat[3]
-    feats = ["sweep", "D=%d" % D, "steps=%d" % desc["steps"]]
+    feats = ["sweep", "D=%d" % D, "steps=%d" % desc["steps"]] + (["reset-between-sweeps"] if desc.get("reset_at") else [])
     if ck.n == 0:
         feats.append("trivial")
         if ck.notes:
